@@ -15,9 +15,14 @@ def MaxSCEVNodes : Nat := 128
     the guard lets through) -/
 def SCEV.nodes : SCEV → Nat
   | .generic _ x y => 1 + x.nodes + y.nodes
-  | .addRec a b _ => 1 + a.nodes + b.nodes
+  | .comm _ x y => 1 + x.nodes + y.nodes
+  | .addRec a b _ _ => 1 + a.nodes + b.nodes
   | .max x y => 1 + x.nodes + y.nodes
   | _ => 1
+
+/-- `commutativeIntOp(b)`: `+ * & | ^` with an integer result -/
+def commutativeIntOp (i : Instr) : Bool :=
+  (i.op == "+" || i.op == "*" || i.op == "&" || i.op == "|" || i.op == "^") && i.tf.isInteger
 
 /-- block of the instruction behind a value (`instr.Block()`), if it is an instruction -/
 def valBlock? (f : Func) : Val → Option Nat
@@ -26,7 +31,7 @@ def valBlock? (f : Func) : Val → Option Nat
 
 /-- `IsLoopInvariant(loop)` of the five SCEV node types -/
 def SCEV.isLoopInvariant (f : Func) (l : Loop) : SCEV → Bool
-  | .addRec start step h =>
+  | .addRec start step h _ =>
     if h == l.header then false
     else start.isLoopInvariant f l && step.isLoopInvariant f l
   | .const _ => true
@@ -41,6 +46,7 @@ def SCEV.isLoopInvariant (f : Func) (l : Loop) : SCEV → Bool
       | none => true
     | some _ => true
   | .generic _ x y => x.isLoopInvariant f l && y.isLoopInvariant f l
+  | .comm _ x y => x.isLoopInvariant f l && y.isLoopInvariant f l
   | .max x y => x.isLoopInvariant f l && y.isLoopInvariant f l
 
 /-- `SCEVFromConst` -/
@@ -77,7 +83,7 @@ def computeSCEV (f : Func) (l : Loop) : Nat → Val → SCEVCache → SCEV × SC
             | .Phi =>
               if i.blk == l.header then
                 match l.induction? id with
-                | some iv => (.addRec iv.start iv.step l.header, cache)
+                | some iv => (.addRec iv.start iv.step l.header i.typ, cache)
                 | none => (.unknown (some v) false, cache)
               else (.unknown (some v) false, cache)
             | .BinOp =>
@@ -88,6 +94,7 @@ def computeSCEV (f : Func) (l : Loop) : Nat → Val → SCEVCache → SCEV × SC
                 -- size guard (fix "bound the size of SCEV expressions built for one value")
                 if left.nodes + right.nodes + 1 > MaxSCEVNodes then
                   (.unknown (some v) (!l.contains i.blk), cache)
+                else if commutativeIntOp i then (.comm i.op left right, cache)
                 else (.generic i.op left right, cache)   -- foldSCEV
               | _, _ => (.unknown (some v) (!l.contains i.blk), cache)
             | _ => (.unknown (some v) (!l.contains i.blk), cache)
